@@ -2934,10 +2934,22 @@ class SEVM:
         new_ex_true = None
         new_ex_false = None
 
-        if follow_true:
-            if target not in ex.pgm.valid_jumpdests():
+        if follow_true and target not in ex.pgm.valid_jumpdests():
+            if not is_symbolic_cond:
+                # the condition definitely holds: the whole state halts (the condition is recorded, as it
+                # is for a valid destination)
+                ex.path.append(cond_true, branching=True)
                 raise InvalidJumpDestError(f"Invalid jump destination: 0x{target:X}")
 
+            # only the inputs that take the jump halt: they get a path of their own, on which the
+            # instruction is executed again with the condition known to hold (and halts there)
+            bad_ex = self.create_branch(ex, cond_true, ex.pc)
+            bad_ex.st.push(ONE)
+            bad_ex.st.push(BV(target))
+            stack.push(bad_ex)
+            follow_true = False
+
+        if follow_true:
             if follow_false:
                 new_ex_true = self.create_branch(ex, cond_true, target)
             else:
